@@ -42,17 +42,13 @@ fn main() {
     out.flush().unwrap();
 }
 
+/// Each module answers the requests it knows (`None` = not mine).
 fn dispatch_impl(toks: &[&str]) -> String {
-    match toks {
-        ["frame", hex] => frame::impl_frame(&util::unhex(hex)),
-        ["framesched", evs @ ..] => frame::impl_framesched(evs),
-        _ => "bad-request".to_owned(),
-    }
+    None.or_else(|| frame::dispatch_impl(toks))
+        .unwrap_or_else(|| "bad-request".to_owned())
 }
 
 fn dispatch_prop(toks: &[&str]) -> String {
-    match toks {
-        ["frame", hex] => frame::prop_frame(&util::unhex(hex)),
-        _ => "bad-request".to_owned(),
-    }
+    None.or_else(|| frame::dispatch_prop(toks))
+        .unwrap_or_else(|| "SKIP no-oracle".to_owned())
 }
